@@ -14,7 +14,7 @@ def run(tier, seed):
     common.PID_ALIAS.update({"SQLM": "C09", "KVW": "C09", "KVM": "C09"})
     from .. import extra
     return common.drop_foreign(sqlm.suites_c09(tier, seed) + kvb.suites_c09(tier, seed)
-                               + [extra.suite_removed_unreachable_after_read(tier, seed, ("replace",)), extra.suite_multi_d_tags(tier, seed)], "C09")
+                               + [extra.suite_removed_unreachable_after_read(tier, seed, ("replace",)), extra.suite_multi_d_tags(tier, seed), extra.suite_many_versions(tier, seed)], "C09")
 
 
 def replay(payload):
